@@ -11,9 +11,11 @@ from_wbem_uri(), the SAX parser) are total functions into Option in the codec re
 of theirs is covered.
 -/
 import Proofs.Lemmas.FuelStable
+import Pywbem.Model.Transport
+import Pywbem.Model.Wire
 
 namespace C02
-open Pywbem.Model Pywbem.Model.Resp Pywbem.Model.Envelope Pywbem.Proto Pywbem.Model.XmlText Proofs.C02
+open Pywbem.Model Pywbem.Model.Resp Pywbem.Model.Envelope Pywbem.Model.Transport Pywbem.Proto Pywbem.Model.XmlText Proofs.C02
 
 /-- the exception classes the WBEMConnection docstring allows an operation to raise for a response
     (ConnectionError / TimeoutError arise in the transport, before there is a response) -/
@@ -225,7 +227,7 @@ theorem C02_op_result_shape (C : EnvCodec) (fuel : Nat) (op : OpSpec) (hwf : OpW
     · cases h
 
 /-- non-vacuity of the shape theorem: an empty EnumerateInstances response returns the empty list -/
-example : handleResponse ⟨toyCodec, fun _ => false⟩ 0
+example : handleResponse ⟨toyCodec, fun _ => none⟩ 0
     { kind := .imethod, meth := "EnumerateInstances".toList, post := .instList }
     (.elem "CIM".toList [("CIMVERSION".toList, "2.0".toList), ("DTDVERSION".toList, "2.0".toList)]
       [.elem "MESSAGE".toList [("ID".toList, ['1']), ("PROTOCOLVERSION".toList, "1.0".toList)]
@@ -233,7 +235,7 @@ example : handleResponse ⟨toyCodec, fun _ => false⟩ 0
     = .ok (.instances []) := rfl
 
 /-- and a CIM error: `<ERROR CODE="6"/>` raises CIMError(6); `CODE="x"` raises CIMXMLParseError -/
-example : handleResponse ⟨toyCodec, fun _ => false⟩ 0
+example : handleResponse ⟨toyCodec, fun _ => none⟩ 0
     { kind := .imethod, meth := "GetInstance".toList, post := .oneInst }
     (.elem "CIM".toList [("CIMVERSION".toList, "2.0".toList), ("DTDVERSION".toList, "2.0".toList)]
       [.elem "MESSAGE".toList [("ID".toList, ['1']), ("PROTOCOLVERSION".toList, "1.0".toList)]
@@ -241,7 +243,7 @@ example : handleResponse ⟨toyCodec, fun _ => false⟩ 0
           [.elem "ERROR".toList [("CODE".toList, ['6'])] []]]]])
     = .error (.cimError 6) := rfl
 
-example : handleResponse ⟨toyCodec, fun _ => false⟩ 0
+example : handleResponse ⟨toyCodec, fun _ => none⟩ 0
     { kind := .imethod, meth := "GetInstance".toList, post := .oneInst }
     (.elem "CIM".toList [("CIMVERSION".toList, "2.0".toList), ("DTDVERSION".toList, "2.0".toList)]
       [.elem "MESSAGE".toList [("ID".toList, ['1']), ("PROTOCOLVERSION".toList, "1.0".toList)]
@@ -325,6 +327,167 @@ theorem C02_cim_error_surfaces (C : EnvCodec) (fuel : Nat) (op : OpSpec) (hk : o
   simp only [hk, bind, Except.bind]
   rw [h1]
   simp only [h2]
+
+/-! ### transport: exceptions of requests / urllib3 -/
+
+/-- the full list of the WBEMConnection docstring: the response classes plus ConnectionError and
+    TimeoutError -/
+def DocumentedAll (e : PyExc) : Prop := Documented e ∨ e = .connectionError ∨ e = .timeoutError
+
+/-- **exception mapping (full strength)**: whatever urllib3 exception (MaxRetryError or not, any class
+    name, any message or none, any `float()` behaviour on the 'read timeout=' field) — the mapped
+    exception is ConnectionError or TimeoutError -/
+theorem C02_urllib3_mapping_no_leak (C : EnvCodec) (e : U3Exc) :
+    mapU3 C e = .connectionError ∨ mapU3 C e = .timeoutError := by
+  unfold mapU3
+  dsimp only
+  split
+  · split
+    · split
+      · split
+        · exact Or.inr rfl
+        · split
+          · exact Or.inl rfl
+          · exact Or.inr rfl
+      · exact Or.inr rfl
+    · exact Or.inl rfl
+  · exact Or.inl rfl
+
+/-- **wbem_request (full strength)**: whatever `session.post()` did — a response with any status and
+    headers, a requests exception of any of the tested classes with any `args`, a urllib3 exception —
+    `wbem_request` returns the body or raises HTTPError, AuthError, HeaderParseError, ConnectionError or
+    TimeoutError -/
+theorem C02_wbem_request_no_leak (C : EnvCodec) (p : PostOutcome) :
+    wbemRequest C p = .ok () ∨ wbemRequest C p = .error .httpError ∨ wbemRequest C p = .error .authError ∨
+    wbemRequest C p = .error .headerParseError ∨ wbemRequest C p = .error .connectionError ∨
+    wbemRequest C p = .error .timeoutError := by
+  cases p with
+  | response h =>
+    rcases C02_http_no_leak h with h1 | h1 | h1 | h1 <;> simp [wbemRequest, h1]
+  | requestsExc k a =>
+    have hm : mapReq C k a = .connectionError ∨ mapReq C k a = .timeoutError := by
+      cases a with
+      | u3 e => exact C02_urllib3_mapping_no_leak C e
+      | missing => cases k <;> simp [mapReq]
+      | str s => cases k <;> simp [mapReq]
+    rcases hm with h1 | h1 <;> simp [wbemRequest, h1]
+  | urllib3Exc e =>
+    rcases C02_urllib3_mapping_no_leak C e with h1 | h1 <;> simp [wbemRequest, h1]
+
+/-- the classification the code documents: SSLError → ConnectionError, ReadTimeout / RetryError →
+    TimeoutError, any other requests exception → ConnectionError (message a string or missing) -/
+theorem C02_requests_mapping_spec (C : EnvCodec) (s : Str) :
+    mapReq C .ssl (.str s) = .connectionError ∧ mapReq C .readTimeout (.str s) = .timeoutError ∧
+    mapReq C .retry (.str s) = .timeoutError ∧ mapReq C .other (.str s) = .connectionError ∧
+    mapReq C .other .missing = .connectionError := ⟨rfl, rfl, rfl, rfl, rfl⟩
+
+/-- requests exceptions map to ConnectionError or TimeoutError, whatever class and arguments -/
+theorem C02_requests_mapping_no_leak (C : EnvCodec) (k : ReqKind) (a : ReqArg) :
+    mapReq C k a = .connectionError ∨ mapReq C k a = .timeoutError := by
+  cases a with
+  | u3 e => exact C02_urllib3_mapping_no_leak C e
+  | missing => cases k <;> simp [mapReq]
+  | str s => cases k <;> simp [mapReq]
+
+/-- **C02 for a whole operation incl. transport failures (partial: RecursionError, C02-KF1)**: whatever
+    `session.post()` did and whatever body came back, for every codec: a class of the documented list
+    (now with ConnectionError / TimeoutError) or RecursionError; parse errors carry request and
+    response data.  Full statement wanted: without the RecursionError disjunct. -/
+theorem C02_operation_partial (C : EnvCodec) (fuel : Nat) (op : OpSpec) (p : PostOutcome) (body : Option Xml) :
+    (∀ e, (operation (conc C) fuel op p body).res = .error e → DocumentedAll e ∨ e = .recursionError) ∧
+    (∀ e, (operation (conc C) fuel op p body).res = .error e → isParseError e = true →
+      (operation (conc C) fuel op p body).hasRequestData = true ∧ (operation (conc C) fuel op p body).hasResponseData = true) := by
+  cases p with
+  | response h =>
+    have := C02_client_no_hypothesis_partial C fuel op h body
+    refine ⟨fun e he => ?_, this.2⟩
+    rcases this.1 e he with h1 | h1
+    · exact Or.inl (Or.inl h1)
+    · exact Or.inr h1
+  | requestsExc k a =>
+    unfold operation wbemRequest
+    rcases C02_requests_mapping_no_leak (conc C) k a with h1 | h1 <;> simp only [h1]
+    · exact ⟨fun e he => by cases he; exact Or.inl (Or.inr (Or.inl rfl)), fun e he hp => by cases he; simp [isParseError] at hp⟩
+    · exact ⟨fun e he => by cases he; exact Or.inl (Or.inr (Or.inr rfl)), fun e he hp => by cases he; simp [isParseError] at hp⟩
+  | urllib3Exc e =>
+    unfold operation wbemRequest
+    rcases C02_urllib3_mapping_no_leak (conc C) e with h1 | h1 <;> simp only [h1]
+    · exact ⟨fun e he => by cases he; exact Or.inl (Or.inr (Or.inl rfl)), fun e he hp => by cases he; simp [isParseError] at hp⟩
+    · exact ⟨fun e he => by cases he; exact Or.inl (Or.inr (Or.inr rfl)), fun e he hp => by cases he; simp [isParseError] at hp⟩
+
+/-- non-vacuity: a MaxRetryError caused by a read timeout of the connect phase (9.99 s) maps to
+    ConnectionError, any other read timeout to TimeoutError, another cause to ConnectionError -/
+example : mapU3 ⟨{ toyCodec with parseFloat := fun s => if s = "9.99".toList then some 4621813488089437307 else some 0 }, fun _ => none⟩
+    ⟨true, "MaxRetryError".toList, some "P (Caused by ReadTimeoutError(\"P(host=h, port=1): x (read timeout=9.99)\"))".toList⟩
+    = .connectionError := by decide
+example : mapU3 ⟨{ toyCodec with parseFloat := fun _ => some 0 }, fun _ => none⟩
+    ⟨true, "MaxRetryError".toList, some "P (Caused by ReadTimeoutError('x (read timeout=30)'))".toList⟩
+    = .timeoutError := by decide
+example : mapU3 ⟨toyCodec, fun _ => none⟩
+    ⟨true, "MaxRetryError".toList, some "P (Caused by NewConnectionError('<x>: refused'))".toList⟩
+    = .connectionError := by decide
+
+/-! ### InvokeMethod values -/
+
+theorem intTy_ofName_name (ty : Str) (t : IntTy) (h : IntTy.ofName ty = some t) : ty = t.name := by
+  unfold IntTy.ofName at h
+  have h2 : t.name = ty := by simpa using List.find?_some h
+  exact h2.symm
+
+/-- **typed InvokeMethod values**: when a return value / output parameter is declared with an integer
+    PARAMTYPE and its VALUE text converts, the Python value handed to the caller is of exactly that CIM
+    integer type and lies in its range (for every text) -/
+theorem C02_invoke_integer_typed (C : EnvCodec) (s ty : Str) (t : IntTy) (ht : IntTy.ofName ty = some t) (a : Atom)
+    (h : cimvalue1 C ty (.str s) = .ok a) : ∃ i, a = .int t i ∧ t.lo ≤ i ∧ i ≤ t.hi := by
+  have hn := intTy_ofName_name ty t ht
+  have h1 : ty ≠ "boolean".toList := by subst hn; cases t <;> decide
+  have h2 : ty ≠ "string".toList := by subst hn; cases t <;> decide
+  have h3 : ty ≠ "char16".toList := by subst hn; cases t <;> decide
+  have h4 : ty ≠ "reference".toList := by subst hn; cases t <;> decide
+  unfold cimvalue1 at h
+  simp only [h1, h2, h3, h4, if_false, false_or] at h
+  unfold convScalar at h
+  simp only [ht] at h
+  obtain ⟨i, _, h⟩ := bind_eq_ok h
+  split at h
+  · cases h; rename_i hr; exact ⟨i, rfl, hr.1, hr.2⟩
+  · cases h
+
+/-- a boolean VALUE text is converted with the CIM-XML rules, never with Python truth testing:
+    `FALSE` is False (the defect of the first version of `_methodcall`, fixed by 2438956) -/
+example : xmlCimvalue ⟨toyCodec, fun _ => none⟩ (.str "FALSE".toList) (some "boolean".toList) = .ok (.scalar (.bool false)) := rfl
+
+/-! ### from the characters of the body -/
+
+/-- **C02 over response texts (partial: RecursionError, C02-KF1)**: for EVERY character string as response
+    body — parsed by the concrete XML parser `XmlParse.par` —, every `session.post()` outcome, operation
+    and codec: a class of the documented list or RecursionError; parse errors carry the data.
+    Full statement wanted: without the RecursionError disjunct, and with expat itself instead of `par`
+    (which under-approximates it: PI, DOCTYPE, non-UTF-8 declarations are rejected by `par` only). -/
+theorem C02_operation_text_partial (C : EnvCodec) (fuel : Nat) (op : OpSpec) (p : PostOutcome) (text : Str) :
+    (∀ e, (Wire.operationText (conc C) fuel op p text).res = .error e → DocumentedAll e ∨ e = .recursionError) ∧
+    (∀ e, (Wire.operationText (conc C) fuel op p text).res = .error e → isParseError e = true →
+      (Wire.operationText (conc C) fuel op p text).hasRequestData = true ∧
+      (Wire.operationText (conc C) fuel op p text).hasResponseData = true) :=
+  C02_operation_partial C fuel op p (XmlParse.par text)
+
+/-- a body the XML parser rejects (status 200, acceptable Content-type) surfaces as XMLParseError with
+    request and response data, for every operation -/
+theorem C02_rejected_text_is_xmlparseerror (C : EnvCodec) (fuel : Nat) (op : OpSpec) (h : HttpResp) (text : Str)
+    (hh : httpLayer h = .ok ()) (hp : XmlParse.par text = none) :
+    (Wire.operationText C fuel op (.response h) text).res = .error .xmlParseError ∧
+    (Wire.operationText C fuel op (.response h) text).hasRequestData = true ∧
+    (Wire.operationText C fuel op (.response h) text).hasResponseData = true := by
+  simp [Wire.operationText, operation, client, hh, hp, parseAndHandle, rspOutcome]
+
+/-- non-vacuity: a truncated document is rejected; an empty DeleteInstance response is accepted and the
+    operation returns None -/
+example : XmlParse.par "<CIM CIMVERSION=\"2.0\"><MESSAGE".toList = none := by decide
+
+example : (match (Wire.operationText ⟨toyCodec, fun _ => none⟩ 0
+    { kind := .imethod, meth := "DeleteInstance".toList, hasRet := false, post := .void } (.response ⟨200, []⟩)
+    "<CIM CIMVERSION=\"2.0\" DTDVERSION=\"2.0\"><MESSAGE ID=\"1\" PROTOCOLVERSION=\"1.0\"><SIMPLERSP><IMETHODRESPONSE NAME=\"DeleteInstance\"/></SIMPLERSP></MESSAGE></CIM>".toList).res with
+    | .ok .void => true | _ => false) = true := by decide +kernel
 
 /-! ### constant tables
 
